@@ -170,7 +170,7 @@ func (ent *entityNode) findStatus(end string) (string, bool) {
 		if status.Name == end {
 			return fmt.Sprintf("%s_STATUS_%s",
 				strcase.ToScreamingSnake(ent.Schema.Name),
-				strcase.ToScreamingSnake(status.Name),
+				status.Name, // as declared, like the options of the status enum
 			), true
 		}
 	}
